@@ -201,8 +201,11 @@ def run(prog, rep):
         for node in g.nodes:
             for r in node.expr_roots():
                 for c in calls_in(r):
+                    recv0 = c.func.value if isinstance(c.func, ast.Attribute) else None
+                    if isinstance(recv0, ast.Attribute) and isinstance(recv0.value, ast.Name):
+                        recv0 = recv0.value          # obj._props.append(...): the copy's own child list
                     if isinstance(c.func, ast.Attribute) and c.func.attr in ("append", "insert", "extend") and \
-                            isinstance(c.func.value, ast.Name) and c.func.value.id != f.params[0]:
+                            isinstance(recv0, ast.Name) and recv0.id != f.params[0]:
                         n_add += 1
                         org = S.origin(c.args[-1], f, node)
                         fresh = bool(org) and all(o[0] == "FRESH" for o in org)
